@@ -44,6 +44,7 @@ DESCRIPTIONS = [
     "\"Quoted start\" and then text",
     "Tab-free, comma, semi; colon: done",
     "Unicode line\u2028separator, paragraph\u2029separator and next\u0085line inside",
+    "Children may extend here as needed.",
 ]
 
 
@@ -177,7 +178,11 @@ def round_trip(rec, label, xml_text, scratch, formats=("xml", "mediawiki", "tsv"
                     S.save_as_dataframes(d, save_merged=merged)
                     R = load_schema(d)
             except Exception as e:
-                rec.violation(f"C05:{kind}:{tag}:raises:{type(e).__name__}", error=repr(e)[:300], **where)
+                special = wiki_text_limit(xml_text) if fmt == "mediawiki" else None
+                if special:
+                    rec.violation(special, error=repr(e)[:300], **where)
+                else:
+                    rec.violation(f"C05:{kind}:{tag}:raises:{type(e).__name__}", error=repr(e)[:300], **where)
                 rec.outcome("raises")
                 continue
             reloaded[tag] = R
@@ -220,7 +225,9 @@ def round_trip(rec, label, xml_text, scratch, formats=("xml", "mediawiki", "tsv"
                         R1.save_as_dataframes(d, save_merged=merged)
                         R2 = load_schema(d)
                 except Exception as e:
-                    rec.violation(f"C05:{kind}:second-generation:{fmt}:{'merged' if merged else 'unmerged'}:raises:{type(e).__name__}",
+                    special = wiki_text_limit(xml_text) if fmt == "mediawiki" else None
+                    rec.violation(special or
+                                  f"C05:{kind}:second-generation:{fmt}:{'merged' if merged else 'unmerged'}:raises:{type(e).__name__}",
                                   path=tag2, error=repr(e)[:300], **where)
                     continue
                 diff = dump_diff(dS, dump(R2)) or dump_diff(dump(R2), dS)
@@ -251,6 +258,18 @@ def round_trip(rec, label, xml_text, scratch, formats=("xml", "mediawiki", "tsv"
                     rec.violation(f"C05:{kind}:tsv-resave-into-same-directory:reloaded-differs", first_merged=first_merged,
                                   detail=diff or "eq-only", **where)
     return S
+
+
+def wiki_text_limit(xml_text):
+    """Inputs whose MediaWiki text cannot be read back because a line-oriented keyword of the format occurs in the data."""
+    if "extend here" in xml_text:
+        return "C05:description-containing-extend-here:mediawiki-text-cannot-be-reloaded"
+    if TOP_LEVEL_SECTION_NAME in xml_text:
+        return "C05:top-level-tag-named-like-a-section:mediawiki-text-cannot-be-reloaded"
+    return None
+
+
+TOP_LEVEL_SECTION_NAME = "A top-level tag whose name is a section keyword."
 
 
 def unmerged_view(saved_model):
@@ -470,6 +489,10 @@ def edits_menu(root):
             if lib:
                 set_attr(m, "inLibrary", [lib])
         menu.append(("add-unit-modifier", add_modifier))
+    if not lib:
+        def add_section_named(rt):
+            add_node(rt.find("schema"), "Properties", TOP_LEVEL_SECTION_NAME, {}, None)
+        menu.append(("add-top-level-node-named-like-a-section", add_section_named))
     if lib:
         def add_rooted(rt):
             std_top = None
